@@ -81,7 +81,7 @@ impl ReaderF {
     // N11: `unsafe { slice::from_raw_parts(reader.prefixed(HEADER_OFFSET).as_ptr().add(from * SIZE_OF_T) as *const T, n) }` (native layout:
     // the stored bytes are the values): elements from..from+n of the stored data, all of which must exist in the file (C20)
     #[verifier::external_body] pub fn native_slice<T>(&self, from: usize, n: usize, Tracked(w): Tracked<&mut FW<T>>) -> (r: &[T])
-        requires from + n <= old(w).disk.len()
+        requires from + n <= old(w).disk.len()        // C20.read C08.range: the bulk copy stays inside the stored data
         ensures *final(w) == *old(w), r@ == old(w).disk.subrange(from as int, from + n)
     { unimplemented!() }
 }
